@@ -47,6 +47,7 @@ def showDest : Dest → String
   assoc-host <hex name> <hex ip>                 → ok
   assoc-up <hex pkt>                             → ok send <hex ip> <port> <hex payload> | ok skip | ok stop <enum>
   assoc-down <hex ip> <port> <hex payload>       → ok <hex datagram written to the tunnel>
+  assoc-down2 <hex ip> <port> <hex payload>      → ok <hex datagram> | ok dropped-oversize   (with the 65535-byte bound of one tunnel frame)
 -/
 def handler : IO Handler := do
   let st ← IO.mkRef ({ headers := [], hosts := [] } : Assoc)
@@ -116,6 +117,18 @@ def handler : IO Handler := do
           let (s', out) := s.down ip p pl
           st.set s'
           pure (some s!"ok {toHex out}")
+        else pure (some "bad-op")
+      | _, _, _ => pure (some "bad-op")
+    | "assoc-down2", [ip, port, payload] =>
+      match parseHex ip, port.toNat?, parseHex payload with
+      | some ip, some p, some pl =>
+        if ip.length = 4 ∨ ip.length = 16 then do
+          let s ← st.get
+          let (s', out) := s.downChecked ip p pl
+          st.set s'
+          pure <| some <| match out with
+            | some o => s!"ok {toHex o}"
+            | none => "ok dropped-oversize"
         else pure (some "bad-op")
       | _, _, _ => pure (some "bad-op")
     | _, _ =>
